@@ -259,7 +259,7 @@ def runLawFit : RM String := do
   let I : CompInst := { n := n, w := fun p q => m.getD (p * n + q) 0, seed := fun x => seeds.getD x 0 == 1,
                         lam := fun x => lam.getD x 0, top := top }
   let pred0 := fun x => let v := p0.getD x (-1); if v < 0 then none else some v.toNat
-  match I.runPicks (I.init pred0 (fun x => l0.getD x 0)) ord.toList with
+  match I.runPicksF (CompInst.freeze n (I.init pred0 (fun x => l0.getD x 0))) ord.toList with
   | none => return "unlawful"
   | some s =>
     let rng := Array.range n
@@ -274,11 +274,29 @@ def runLawPrim : RM String := do
   let lo ← nextN
   let ord ← nextNs lo
   let I : PrimInst := { n := n, w := fun p q => m.getD (p * n + q) 0, lam := fun x => lam.getD x 0, top := top }
-  match I.runPicks I.init ord.toList with
+  match I.runPicksF (PrimInst.freeze n I.init) ord.toList with
   | none => return "unlawful"
   | some s =>
     let rng := Array.range n
     return s!"lawful {if I.isFinal s then 1 else 0} | {showOpt (rng.map s.pred)} | {showBools (rng.map s.proto)}"
+
+/-- `predict n cost[n] plabel[n] pred[n] lenOrder order.. nq d[nq*n]` : prediction pass on a given forest -/
+def runPredict : RM String := do
+  let n ← nextN
+  let cost ← nextIs n
+  let pl ← nextNs n
+  let pr ← nextIs n
+  let lo ← nextN
+  let ord ← nextNs lo
+  let f : Forest := { n := n, pred := pr.map (fun v => if v < 0 then none else some v.toNat), proto := Array.replicate n false,
+                      ncost := cost, plabel := pl, label := Array.replicate n 0, order := ord,
+                      relevant := Array.replicate n false }
+  let nq ← nextN
+  let dm ← nextIs (nq * n)
+  let ds := (List.range nq).map fun i => fun t => dm.getD (i * n + t) 0
+  let (f2, labs) := predictBatch f ds
+  let ls := " ".intercalate (labs.map fun o => match o with | none => "-1" | some x => toString x)
+  return s!"{ls} | {showBools f2.relevant}"
 
 def dispatch (line : String) : String :=
   match (line.splitOn " ").filter (· ≠ "") with
@@ -290,6 +308,7 @@ def dispatch (line : String) : String :=
     | "heap" => run runHeap
     | "prim" => run runPrim
     | "fit" => run runFit
+    | "predict" => run runPredict
     | "dist" => run runDist
     | "arcs" => run runArcs
     | "pdf" => run runPdf
